@@ -64,7 +64,9 @@ class C03(Spec):
             "ticks x one request, two requests, Reset chains, AfterFunc; random schedules for n <= 8 with up to 4 threads. "
             "time line = (step, buckets) + up to 64 concurrent timer programs (arm instant, interval, Reset chain) on the "
             "real wheel under virtual time; compared: every fire instant in ns. pure line = NewTimer/Reset range check and "
-            "bucket index. distinct by script line; non-trivial = a race line in which some request overlaps at least one "
+            "bucket index (also on huge wheels). huge line = sequential NewTimer/Reset chain on wheels of 65535..200000 buckets "
+            "(ring-size boundaries 65535/65536/65537 steps, longest interval, half ring), ticked until the timer is released; "
+            "compared: the releasing tick. distinct by script line; non-trivial = a race line in which some request overlaps at least one "
             "ticker access, a time line with at least one fire, a pure line that does not panic")
     trusted_base = ["harness/csched (controlled scheduler) and the verifYield hook sites of loom/verif_on.go",
                     "Go runtime faketime clock (GOMAXPROCS=1): time.Ticker delivers tick j at j*step",
@@ -87,6 +89,8 @@ class C03(Spec):
                 return self.oracle_time(w[1:], impl)
             if w[0] == "pure":
                 return self.oracle_pure(w[1:], impl)
+            if w[0] == "huge":
+                return self.oracle_huge(w[1:], impl)
             if w[0] == "ctor":
                 exp = "P" if int(w[1]) <= 0 or int(w[2]) <= 0 else "ok"
                 if impl != exp:
@@ -206,6 +210,39 @@ class C03(Spec):
                 stage += 1
         return None
 
+    def oracle_huge(self, w, impl):
+        n, step = int(w[0]), int(w[1])
+        ops = parse_ops(w[3])
+        obs = dict(x.split("=", 1) for x in impl.split())
+        base = None
+        for i, (kind, val) in enumerate(ops):
+            if kind in "na":
+                d = base = val
+            else:
+                d = sel_interval(step, base, val)
+            v = obs.get(str(i))
+            if v is None:
+                return ("missing-result", "no result for op %d" % i)
+            if out_of_range(step, n, d):
+                if v != "P":
+                    return ("range-no-panic", "op %d: interval %d outside [0,%d) did not panic: %s" % (i, d, step * n, v))
+                break
+            if v == "P":
+                return ("range-panic", "op %d: interval %d inside [0,%d) panicked" % (i, d, step * n))
+            L, f = v.split(",")
+            L = int(L[1:])
+            k = offset(step, d)
+            if f == "fnever":
+                return ("never-fired", "op %d (interval %d = %d steps on a %d-bucket wheel) not released within n+2 ticks" % (i, d, d // step, n))
+            fire = int(f[1:])
+            # sequential request: L ticks complete at the call and at the return, so the releasing tick is L+k+1 exactly
+            if fire != L + k + 1:
+                return ("fire-tick-late" if fire > L + k + 1 else "fire-tick-early",
+                        "op %d: interval %d (%d steps of %d) on a %d-bucket wheel requested after %d ticks must be released by tick %d; "
+                        "it was released by tick %d (%d ticks %s)" % (i, d, d // step, step, n, L, L + k + 1, fire, abs(fire - L - k - 1),
+                                                                      "late" if fire > L + k + 1 else "early"))
+        return None
+
     def oracle_pure(self, w, impl):
         step, n, base = int(w[0]), int(w[1]), int(w[2])
         arg = None if w[3] == "-" else int(w[3])
@@ -244,6 +281,8 @@ class C03(Spec):
             return any(c.isdigit() for c in impl.split("=", 1)[-1])
         if w == "ctor":
             return impl == "ok"
+        if w == "huge":
+            return ",f" in impl
         return "k" in impl
 
 
